@@ -139,6 +139,26 @@ Proof.
   apply (I5_reply _ I5) in H. apply (I5_ack _ I5) in H. tauto.
 Qed.
 
+(* ... in particular at the moment the reply is produced: after a node has handled an
+   AppendEntries message, every successful reply it has ever sent for that term describes its log *)
+Theorem ack_when_produced s n t l pi pt es lc m :
+  reachable V s -> pre V (HandleAppendEntries n t l pi pt es lc) s ->
+  let s' := eff V (HandleAppendEntries n t l pi pt es lc) s in
+  In (AppendReply t n true m) (net s') ->
+  term (nodes s' n) = t /\ m <= length (log (nodes s' n)) /\
+  firstn m (log (nodes s' n)) = firstn m (llog s' t).
+Proof.
+  intros R P s' H.
+  assert (R' : reachable V s') by (apply (reach_step V s s'); auto; exists (HandleAppendEntries n t l pi pt es lc); auto).
+  assert (E : term (nodes s' n) = t).
+  { destruct P as (_ & _ & _ & Ht). subst s'. simpl. unfold do_ae.
+    pose proof (adopt_term s n t Ht) as A.
+    destruct pi as [|p]; [unfold ae_fail; simpl; rewrite upd_same; simpl; auto|].
+    destruct (nth_error (log (nodes (adopt n t s) n)) p) as [pe|];
+      [destruct (eterm pe =? pt)|]; unfold ae_ok, ae_fail; simpl; rewrite upd_same; simpl; auto. }
+  split; auto. destruct (ack_sound s' t n m R' H) as (_ & _ & D). apply D; auto.
+Qed.
+
 (* matchIndex soundness: what the leader of T believes about a follower still in term T is true *)
 Theorem match_sound s L f :
   reachable V s -> rl (nodes s L) = Leader -> term (nodes s f) = term (nodes s L) ->
